@@ -295,7 +295,7 @@ func (bc *Blockchain) validateMempoolTx(txn adb.Txn, tx *transaction.Transaction
 			}
 			if !found {
 				delegate.Funds = append(delegate.Funds, &chaintype.DelegatedFund{
-					Owner:  signer,
+					Owner:  entry.Signer,
 					Amount: stakeData.Amount,
 					Unlock: nextheight + config.STAKE_UNLOCK_TIME,
 				})
@@ -345,18 +345,13 @@ func (bc *Blockchain) validateMempoolTx(txn adb.Txn, tx *transaction.Transaction
 
 			setDelegateData := tx.Data.(*transaction.SetDelegate)
 
-			if setDelegateData.PreviousDelegate != simulatedStates[signer].DelegateId {
-				return fmt.Errorf("set delegate transaction has invalid PreviousDelegate %d, expected %d", setDelegateData.PreviousDelegate, simulatedStates[signer].DelegateId)
-			}
-
-			if simulatedStates[signer] == nil {
-				simulatedStates[signer], err = bc.GetState(txn, signer)
-				if err != nil {
-					return err
+			// the entry changes the delegate of ITS signer; that only matters when the signer's state is simulated
+			if signerState != nil {
+				if setDelegateData.PreviousDelegate != signerState.DelegateId {
+					return fmt.Errorf("set delegate transaction has invalid PreviousDelegate %d, expected %d", setDelegateData.PreviousDelegate, signerState.DelegateId)
 				}
+				signerState.DelegateId = setDelegateData.DelegateId
 			}
-
-			simulatedStates[signer].DelegateId = setDelegateData.DelegateId
 		}
 	}
 
